@@ -181,6 +181,20 @@ class C14(RebuildProp):
                 return [self.cand(rng, rng.choice(["intact"] + DECOYS)) for _ in range(m)]
             out.append(self.scen(rng, P, v, pick(rng, P), cands, lambda fi, f: rng.choice(pres), repeat=k % 3 == 0,
                                  route="cli" if k % 7 == 0 else "lib"))
+        # a file that starts exactly on a piece boundary and has only / first a dead decoy, while the
+        # files before it are intact (so the piece that ends at the boundary verifies)
+        for v in (1, 2, 3):
+            for P in (B, 2 * B):
+                for sizes in ((P, B + 7), (2 * P, P), (P - 1, 1, 2 * P + 3), (P, 5, P - 5, 100)):
+                    for second in (["decoy_all"], ["decoy_all", "intact"], ["decoy_all", "decoy_all"]):
+                        sh = {2: "D2", 3: "D3", 4: "D4"}[len(sizes)]
+                        last = len(sizes) - 1
+
+                        def cands(fi, f, last=last, second=second):
+                            if fi == last:
+                                return [self.cand(rng, c, search=0, depth=k) for k, c in enumerate(second)]
+                            return [self.cand(rng, "intact", search=0)]
+                        out.append(self.scen(rng, P, v, (sh, sizes), cands, nsearch=1))
         for v in (1, 2, 3):           # only dead decoys: nothing may be placed
             for sizes in ((B + 1, 2 * B), (5, 3 * B), (2 * B, 2 * B)):
                 out.append(self.scen(rng, B, v, ("D2", sizes), lambda fi, f: [self.cand(rng, "decoy_all")], nsearch=1))
